@@ -31,10 +31,13 @@ InitSt == [ H     |-> <<>>,   \* handle id -> handle record (see MkH)
             N     |-> <<>>,   \* graph node id -> [par : Seq(node), const, cr (has creator), clr (was cleared)]
             mem   |-> <<>>,   \* buffer id -> Seq(Dual)
             pv    |-> <<>>,   \* buffer id -> Seq(VarId)   current perturbation variable of each cell (0 = none)
+            al    |-> <<>>,   \* buffer id -> Seq(SUBSET VarId)  earlier variables of a cell whose graph was cleared
             nv    |-> 0,      \* perturbation variables allocated so far
+            clk   |-> 0,      \* statement counter (orders node creation and clearing)
             g     |-> <<>>,   \* handle id -> None | Some(Seq(Rat))   gradient stored on an OWNER (per buffer cell)
             gen   |-> <<>>,   \* handle id -> generation number of the gradient array stored on the owner
             ngen  |-> 0,
+            kf    |-> {},     \* known-finding triggers this history has passed (DESIGN 4.4 / section 7)
             exc   |-> "none"  \* exception class the last statement is predicted to raise
           ]
 
@@ -57,14 +60,16 @@ PutH(st, h, rec) ==
   IF h = n + 1 THEN [st EXCEPT !.H = Append(@, rec), !.g = Append(@, None), !.gen = Append(@, 0)]
   ELSE [st EXCEPT !.H[h] = rec, !.g[h] = None, !.gen[h] = 0]
 
-NewNode(st, par, const, cr) == [st EXCEPT !.N = Append(@, [par |-> par, const |-> const, cr |-> cr, clr |-> FALSE])]
+NewNode(st, par, const, cr) ==
+  [st EXCEPT !.N = Append(@, [par |-> par, const |-> const, cr |-> cr, clr |-> FALSE, born |-> st.clk, clrAt |-> 0])]
 
 \* allocate a buffer holding `ds`; non-constant buffers get one fresh perturbation variable per cell
 NewBuf(st, ds, const) ==
   LET n == Len(ds)
       vars  == [i \in 1..n |-> IF const THEN 0 ELSE st.nv + i]
       cells == [i \in 1..n |-> IF const THEN DC(ds[i].v) ELSE D(ds[i].v, TAdd(ds[i].t, TUnit(vars[i])))]
-  IN [st EXCEPT !.mem = Append(@, cells), !.pv = Append(@, vars), !.nv = IF const THEN @ ELSE @ + n]
+  IN [st EXCEPT !.mem = Append(@, cells), !.pv = Append(@, vars), !.al = Append(@, [i \in 1..n |-> {}]),
+                !.nv = IF const THEN @ ELSE @ + n]
 
 \* ------------------------------------------------------------------ operands
 \* An operand is a tensor handle {h}, a Python scalar {s}, or an inline constant array {arr: [sh, v]}.
@@ -221,9 +226,14 @@ ApplyOp(st, s) ==
         LET a == os[1].h src == st.H[a]
             sh == StructShape(f, s, src.sh) g == StructGather(f, s, src.sh)
             newimap == Gather(src.imap, g)
+            \* KNOWN FINDING F-C04-1 (trigger): NumPy hands back the operand array itself (a squeeze with
+            \* nothing to squeeze, on a memory owner).  MyGrad then records a NON-view tensor over the same
+            \* array (no .base, no view bookkeeping), so later in-place updates do not propagate.
+            passthru == f = "squeeze" /\ sh = src.sh /\ src.base = 0
+            st0 == IF passthru THEN [st EXCEPT !.kf = @ \cup {"F-C04-1"}] ELSE st
         IN IF StructIsView(f, s, src, newimap, sh)
-           THEN MkView(st, s, a, sh, g)
-           ELSE MkResult(st, s, sh, Gather(Cells(st, a), g), os)
+           THEN MkView(st0, s, a, sh, g)
+           ELSE MkResult(st0, s, sh, Gather(Cells(st, a), g), os)
 
 \* ------------------------------------------------------------------ leaves
 \* s = [k |-> "leaf", h, sh, v (Seq of Rat), const]
@@ -242,7 +252,7 @@ Family(st, h) == {h} \cup UNION {Family(st, k) : k \in {x \in st.H[h].kids : st.
 \* the family moves to a fresh buffer; aliases outside the family (there are none within one graph epoch,
 \* which is the scope of C04) keep the old one.  All cells of the new buffer get fresh perturbation
 \* variables: the post-update value of the base is what `x.grad` refers to from now on (C05).
-InPlace(st, t, newc, srcs) ==
+InPlace(st, t, newc, srcs, oldIsInput) ==
   LET tr == st.H[t]
       \* an in-place update on a stale view: the tensor first detaches (it becomes its own base) (C07)
       detach == tr.base # 0 /\ (~HasCr(st, t) \/ t \notin Family(st, tr.base))
@@ -253,12 +263,21 @@ InPlace(st, t, newc, srcs) ==
       fam == Family(st, r)
       raw  == [c \in 1..n |-> IF c \in DOMAIN newc THEN newc[c] ELSE st.mem[b][c]]
       \* gradients: the family's gradient is gone; so is that of owners used as value operands
-      st0 == NullOnUse(st, OpHandles(srcs) \ fam)
+      \* KNOWN FINDING F-C09-1 (trigger): an operation recorded BEFORE some clear_graph/backward emptied the
+      \* consumer set of a family member still consumes that member; MyGrad's in-place machinery re-routes
+      \* only the consumers still listed, so that operation silently sees the mutated tensor.
+      famnodes == {st.H[x].node : x \in fam}
+      missed == \E m \in DOMAIN st.N : st.N[m].cr /\
+                   \E i \in 1..Len(st.N[m].par) : st.N[m].par[i] \in famnodes /\ st.N[st.N[m].par[i]].clrAt > st.N[m].born
+      st0 == [NullOnUse(st, OpHandles(srcs) \ fam) EXCEPT !.kf = IF missed THEN @ \cup {"F-C09-1"} ELSE @]
       st1 == [NewBuf(st0, raw, const) EXCEPT !.g[r] = None]
       nb == Len(st1.mem)
       \* graph: the root gets a new node whose parents are the old nodes of root, target and operands
       oldn(h) == st.H[h].node
-      rootpar == <<oldn(r)>> \o (IF t # r THEN <<oldn(t)>> ELSE <<>>) \o OpNodes(st, srcs)
+      \* (the old contents are an input of the update unless a ufunc with out= and no where= simply
+      \*  replaces the whole base: then nothing upstream of the old contents is upstream of the new ones)
+      rootpar == (IF oldIsInput \/ t # r THEN <<oldn(r)>> ELSE <<>>)
+                 \o (IF t # r /\ oldIsInput THEN <<oldn(t)>> ELSE <<>>) \o OpNodes(st, srcs)
       st2 == NewNode(st1, rootpar, const, TRUE)
       st3 == [st2 EXCEPT !.H = [h \in DOMAIN @ |->
                                   IF h = r THEN [@[h] EXCEPT !.buf = nb, !.node = Len(st2.N), !.base = 0, !.par = 0]
@@ -273,6 +292,7 @@ InPlace(st, t, newc, srcs) ==
   IN Recreate(st3, fam \ {r})
 
 \* NumPy's rule for assigning a value of shape vs into a selection of shape ish
+\* (an element selected by integers only accepts a 0-d value: NumPy 2 refuses "a[0] = array([5.])")
 AssignOK(vs, ish) ==
   LET lead == Len(vs) - Len(ish) IN
   IF lead <= 0 THEN BTo(vs, ish)
@@ -288,7 +308,7 @@ ApplySetItem(st, s) ==
       dom == {cellOf[k] : k \in 1..Len(ig)}
       newc == [c \in dom |-> LET k == CHOOSE j \in 1..Len(ig) : cellOf[j] = c /\ \A j2 \in 1..Len(ig) : cellOf[j2] = c => j2 <= j
                              IN vc[vg[k]]]
-  IN InPlace(st, s.t, newc, <<s.val>>)
+  IN InPlace(st, s.t, newc, <<s.val>>, TRUE)
 
 \* t <f>= val     (augmented assignment; also `ufunc(t, val, out=t)`)
 ApplyAug(st, s) ==
@@ -296,7 +316,7 @@ ApplyAug(st, s) ==
       vs == OpSh(st, s.val) vc == OpCells(st, s.val) vg == BGather(vs, tr.sh)
       newc == [c \in CellSet(st, s.t) |-> LET k == CHOOSE j \in 1..Len(tr.imap) : tr.imap[j] = c
                                          IN BinK(s.f, cur[k], vc[vg[k]])]
-  IN InPlace(st, s.t, newc, <<s.val>>)
+  IN InPlace(st, s.t, newc, <<s.val>>, TRUE)
 
 \* ufunc(a [, b], out=t, where=mask):   cells where the mask is FALSE keep their old content
 ApplyUfuncOut(st, s) ==
@@ -311,7 +331,7 @@ ApplyUfuncOut(st, s) ==
                   IN [p \in 1..Size(sh) |-> UnK(s.f, c1[g1[p]])]
       dom == {tr.imap[p] : p \in {q \in 1..Size(sh) : msk[q]}}
       newc == [c \in dom |-> LET p == CHOOSE q \in 1..Size(sh) : tr.imap[q] = c IN res[p]]
-  IN InPlace(st, s.out, newc, os)
+  IN InPlace(st, s.out, newc, os, Has(s, "where"))
 
 \* ------------------------------------------------------------------ graph traversal
 \* nodes reachable from n through creators; a node without creator is a leaf of the traversal
@@ -329,9 +349,22 @@ ClearNodes(st, ns) ==
       newgc(r) == IF r.base # 0 /\ st.N[r.node].cr
                   THEN (IF ~IsNone(st.g[r.base]) THEN st.gen[r.base] ELSE 0)
                   ELSE r.gc
-  IN
-  [st EXCEPT !.N = [n \in DOMAIN @ |-> IF n \in ns THEN [@[n] EXCEPT !.cr = FALSE, !.clr = TRUE] ELSE @[n]],
-             !.H = [h \in DOMAIN @ |-> IF h \in hs THEN [@[h] EXCEPT !.kids = {}, !.gc = newgc(st.H[h])] ELSE @[h]]]
+      st1 == [st EXCEPT !.N = [n \in DOMAIN @ |-> IF n \in ns THEN [@[n] EXCEPT !.cr = FALSE, !.clr = TRUE, !.clrAt = st.clk] ELSE @[n]],
+                        !.H = [h \in DOMAIN @ |-> IF h \in hs THEN [@[h] EXCEPT !.kids = {}, !.gc = newgc(st.H[h])] ELSE @[h]]]
+      \* A cleared tensor that had a creator is a leaf from now on: what is built on it later must not
+      \* differentiate through its former history.  Its cells get fresh perturbation variables (the old
+      \* ones stay as aliases, because graphs recorded earlier still refer to them).
+      own == {h \in hs : st.H[h].base = 0 /\ st.N[st.H[h].node].cr /\ ~st.H[h].const}
+      RECURSIVE Cut(_, _)
+      Cut(x, todo) ==
+        IF todo = {} THEN x ELSE
+        LET h == CHOOSE y \in todo : TRUE
+            b == x.H[h].buf n == Len(x.mem[b])
+            vars == [c \in 1..n |-> x.nv + c]
+        IN Cut([x EXCEPT !.mem[b] = [c \in 1..n |-> D(@[c].v, TUnit(vars[c]))],
+                         !.al[b] = [c \in 1..n |-> @[c] \cup {x.pv[b][c]}],
+                         !.pv[b] = vars, !.nv = @ + n], todo \ {h})
+  IN Cut(st1, own)
 
 \* ------------------------------------------------------------------ backward
 SeedOK(st, s) == ~Has(s, "seed") \/ (BTo(OpSh(st, s.seed), st.H[s.h].sh))
@@ -341,7 +374,10 @@ SeedCells(st, s) ==
   ELSE LET c == OpCells(st, s.seed) g == BGather(OpSh(st, s.seed), sh) IN [p \in 1..Size(sh) |-> c[g[p]].v]
 
 Adjoint(st, tot, h) ==     \* stored per cell of the owner's buffer
-  LET b == st.H[h].buf IN [c \in 1..Len(st.mem[b]) |-> TGet(tot, st.pv[b][c])]
+  LET b == st.H[h].buf
+      RECURSIVE SumAl(_)
+      SumAl(ks) == IF ks = {} THEN RZero ELSE LET k == CHOOSE x \in ks : TRUE IN RAdd(TGet(tot, k), SumAl(ks \ {k}))
+  IN [c \in 1..Len(st.mem[b]) |-> RAdd(TGet(tot, st.pv[b][c]), SumAl(st.al[b][c]))]
 
 ApplyBackward(st, s) ==
   LET L == s.h lr == st.H[L] IN
@@ -365,7 +401,13 @@ ApplyNullGrad(st, s) == IF st.H[s.h].base = 0 THEN [st EXCEPT !.g[s.h] = None]
                         ELSE [st EXCEPT !.H[s.h].gc = 0]
 ApplyDrop(st, s) == [st EXCEPT !.H[s.h].live = FALSE]
 
-Apply(st, s) ==
+\* a backward through a graph part of which was cleared AFTER it was recorded may raise InvalidBackprop (C09)
+PartialClear(st, L) ==
+  \E m \in UpDiff(st, st.H[L].node) : st.N[m].cr /\ ~st.N[m].const /\
+     \E i \in 1..Len(st.N[m].par) : st.N[st.N[m].par[i]].clrAt > st.N[m].born
+
+Apply(st0, s) ==
+  LET st == [st0 EXCEPT !.clk = @ + 1] IN
   CASE s.k = "leaf"     -> ApplyLeaf(st, s)
     [] s.k = "op"       -> ApplyOp(st, s)
     [] s.k = "setitem"  -> ApplySetItem(st, s)
@@ -387,5 +429,5 @@ ObsGrad(st, h) ==
        ELSE IF HasCr(st, h) \/ (r.gc # 0 /\ r.gc = st.gen[r.base])
             THEN Some([k \in 1..Len(r.imap) |-> bg.v[r.imap[k]]])      \* owner's gradient is stored per buffer cell
             ELSE None
-ObsBase(st, h) == st.H[h].base
+ObsBase(st, h) == LET b == st.H[h].base IN IF b # 0 /\ ~st.H[b].live THEN -1 ELSE b
 =============================================================================
